@@ -500,3 +500,41 @@ func init() {
 		}
 	})
 }
+
+func init() {
+	// C03-4 (the saveBuf size limit moved before parsing, measuring saved bytes + the whole new chunk).
+	ExtraClause("C03", "Also: Decoder.Write gives up with ErrStringLength only after a parse attempt has returned errNeedMore, i.e. for the one pending incomplete representation, never for the size of a chunk.")
+	RegisterExtra("C03", func(c *Ctx) {
+		const w = "(*http2/hpack.Decoder).Write"
+		// returns whose error may be ErrStringLength (directly or as one input of a merged result variable)
+		mayBe := Sel{Name: "return that may yield ErrStringLength", F: func(p *Prog, fn *ssa.Function) []ssa.Instruction {
+			var out []ssa.Instruction
+			for _, r := range Returns().F(p, fn) {
+				ret := r.(*ssa.Return)
+				if len(ret.Results) < 2 {
+					continue
+				}
+				hit := false
+				var walk func(v ssa.Value, d int)
+				walk = func(v ssa.Value, d int) {
+					if ph, ok := v.(*ssa.Phi); ok && d < 6 {
+						for _, e := range ph.Edges {
+							walk(e, d+1)
+						}
+						return
+					}
+					if Term(v) == "http2/hpack.ErrStringLength" {
+						hit = true
+					}
+				}
+				walk(RetResult(ret, 1), 0)
+				if hit {
+					out = append(out, r)
+				}
+			}
+			return out
+		}}
+		c.Guard(w, mayBe, "parseHeaderFieldRepr($r) == http2/hpack.errNeedMore")
+		c.Has(w, mayBe)
+	})
+}
